@@ -251,6 +251,17 @@ theorem dumpItems_times_ok (S : Schema) (f : FieldD) (isDur : Bool) (hty : f.ty 
     rw [dumpItems_time S f x xs hty hnw (timeValOk_isTime isDur x hx0), hp, hr]
     exact ⟨_, rfl⟩
 
+/-- repeated wrapper field -/
+theorem dumpItems_wraps_ok (S : Schema) (f : FieldD) (w : PType) (hwf : WrapsField f w) :
+    ∀ xs : List Val, (∀ x ∈ xs, scalarOk w x = true) → ∃ b, dumpItems S f xs = .ok b
+  | [], _ => ⟨[], by rw [dumpItems]⟩
+  | x :: xs, hx => by
+    have hx0 := hx x (by simp)
+    obtain ⟨p, hp⟩ := wrapperBytes_ok S w x hwf.wty hx0
+    obtain ⟨r, hr⟩ := dumpItems_wraps_ok S f w hwf xs (fun y hy => hx y (by simp [hy]))
+    rw [dumpItems_wrap S f w x xs hwf.ty hwf.wr hx0, hp, hr]
+    exact ⟨_, rfl⟩
+
 /-- repeated message field, given that every element is an encodable message -/
 theorem dumpItems_msgs_ok (S : Schema) (f : FieldD) (c : Nat) (hty : f.ty = PType.message)
     (hnw : f.wraps = Option.none) :
@@ -408,6 +419,10 @@ theorem slotOk_encodable (S : Schema) (f : FieldD) : ∀ (v : Val), SlotOk S f v
       exact dumpSlot_list_ok S f hid sel xs
         (fun hp => by rw [hf.ty] at hp; exact absurd hp (by decide))
         (fun _ => dumpItems_times_ok S f true hf.ty hf.nw xs hv)
+    | wraps _ w _ hf hv =>
+      exact dumpSlot_list_ok S f hid sel xs
+        (fun hp => by rw [hf.ty] at hp; exact absurd hp (by decide))
+        (fun _ => dumpItems_wraps_ok S f w hf xs hv)
   | .dict ks vs, h, hid, sel => by
     cases h with
     | flat _ _ hf hv => simp [flatSlotOk, scalarOk] at hv
